@@ -12,6 +12,6 @@ class Check(PropertyCheck):
     assumptions = ["E-funds, E-actors, E-names, E-zero-coin (DESIGN.md section 4.5)"]
 
     def families(self, rng, tier):
-        return [("asset.assert_sent_native_token_balance", fam_guards.sent_native_cases(rng, tier)),
-                ("world.funds_matrix", fam_world.funds_matrix(rng, tier)), ("world.general", fam_world.general_histories(rng, tier, n_hist={"quick": 5, "thorough": 50}[tier])),
-                ("world.lookalike", fam_world.lookalike_histories(rng, tier))]
+        return [("asset.assert_sent_native_token_balance", fam_guards.sent_native_cases(rng.sub("sent_native_cases"), tier)),
+                ("world.funds_matrix", fam_world.funds_matrix(rng.sub("funds_matrix"), tier)), ("world.general", fam_world.general_histories(rng.sub("general_histories"), tier, n_hist={"quick": 5, "thorough": 50}[tier])),
+                ("world.lookalike", fam_world.lookalike_histories(rng.sub("lookalike_histories"), tier))]
